@@ -411,11 +411,13 @@ func Prop() *core.Prop {
 	return &core.Prop{
 		ID:    "C17",
 		Level: core.Exploration,
-		Rule:  "documents are PRNG byte strings: directive-alphabet soup with per-document densities (0-400 bytes, some straddling bufio's 4096-byte start buffer), structured documents (nested spans, pre spans holding directives, quotes of depth 1-3 with varying prefixes and depth changes, pre blocks with info strings / unterminated / inside quotes, Unicode spaces, invalid UTF-8), byte-level mutations of those, lines up to 60 KiB, and one case in 1000 with a line of 64 KiB or more. Each document is decoded whole, byte-by-byte, in 6 PRNG chunkings and 2 chunkings whose last piece arrives with io.EOF (large pieces only for documents over 4500 bytes); styling.Scan() runs on a bufio.Scanner under 4 of these. A case is non-trivial when some token carries a style bit; distinct = distinct documents among those.",
+		Rule:  "documents are PRNG byte strings: directive-alphabet soup with per-document densities (0-400 bytes, 1% of 4000-4300 bytes straddling bufio's 4096-byte start buffer), structured documents (nested spans, pre spans holding directives, quotes of depth 1-3 with varying prefixes and depth changes, pre blocks with info strings / unterminated / inside quotes, Unicode spaces, invalid UTF-8), byte-level mutations of those, 2% documents with a line of 2-60 KiB, and one case in 1000 with a line of 64 KiB or more (limit probe). Each document is decoded whole, byte-by-byte, in 6 PRNG chunkings (a few cuts, pieces of 1-3 bytes, pieces of 1-8 bytes) and 2 deliveries whose last piece arrives together with io.EOF (documents over 4500 bytes: whole, 3 chunkings with pieces of 200-6200 bytes, 2 EOF-carrying); every delivery is checked for the Next-call bound 4*len+16, panics, losslessness and equality of the (data, mask, quote depth, info) sequence with the reference delivery, every distinct sequence for the bracket discipline; styling.Scan() runs on a bufio.Scanner (buffer limit lifted) under 5 of the deliveries. A case is non-trivial when some token carries a style bit; distinct = distinct documents among those.",
 		Assumptions: []string{
-			"a reader may return its last bytes together with io.EOF (io.Reader permits it; the package's TestEOFPre does it)",
+			"a reader may return its last bytes together with io.EOF (io.Reader permits it; the package's own TestEOFPre uses such a reader); divergences that need this are keyed chunk:styling:eof-with-data:*",
 			"Style() and Quote() are read right after Token(), as the package's tests do",
-			"span style bits of a token are expected to equal the set of spans open at that token (part of 'style bookkeeping is consistent')",
+			"the span style bits of a token are expected to equal the set of spans open at that token (read as part of 'style bookkeeping is consistent'); this never fired on the unchanged tree",
+			"per child process at most 25 cases are written out per class key, the rest are counted in violations_beyond_report_cap (keeps the thorough tier's report bounded on a tree where a third of all documents hit a defect)",
+			"the token limit of a caller-owned bufio.Scanner used with styling.Scan() is the caller's choice; only NewDecoder's private Scanner is judged for limit:styling:64k",
 		},
 		Cases: func(tier string) int {
 			if tier == "thorough" {
